@@ -44,7 +44,7 @@ CLAIMS["C02"] = dict(
          "solved interleaved, and every accepted spelling of grid / x0 / t0 / parameters; returned arrays are kept and re-read after every later call, arguments checked for writes "
          "(a write alone is a side effect: tag + mismatch). The grid is an arbitrary list in every theorem; stated outright: row_at_requested_time, repeated_times_equal_rows (a time asked twice gets the flow "
          "there twice), rows_translation_invariant (for an autonomous flow the rows do not depend on where (t0, grid) sits on the time axis), repeated_time_shortcut_counterexample. "
-         "The direct oracle places every runtime case near the origin or far from it (|t0| up to 1e8, both signs, spacing below 1e-5|t|), on horizons from t0 + 2^-30 T to 8T, on grids with repeated "
+         "The direct oracle places every runtime case near the origin or far from it (|t0| up to 1e7, both signs, spacing below 1e-5|t|), on horizons from t0 + 2^-30 T to 8T, on grids with repeated "
          "times, neighbours one / a few ulps apart, a first time at or one ulp after t0, one point; models include time-dependent rates and every kind of right-hand side that is first order "
          "in the states (linear chains, constant inflow, constant explicit ODE terms, time-dependent coefficients, symmetric / zero Jacobians), zero parameters and zero initial states; the "
          "reference is integrated in the real time.",
@@ -238,7 +238,7 @@ CLAIMS["C06"] = dict(
          "target_param / target_state subsets in any order. Histories: the values a loss object holds over any sequence of calls are modelled (Held / step / outputs: unrollState_target, "
          "unrollState_other, earlier_outputs_unaffected, atStored_reproduces, output_depends_on_held_values_only) and scripts of calls of all eleven entry points on one or two loss objects "
          "(shared model object, user re-parameterisation, deepcopy, float and integer containers for every argument, t0 != 0) are judged against the same reference for the values held; "
-         "returned arrays are kept and re-compared, the caller's arrays must stay unchanged. Observation grids: replicate times, grids far from the time origin (|t0| up to 1e7, both signs), "
+         "returned arrays are kept and re-compared, the caller's arrays must stay unchanged. Observation grids: replicate times, grids far from the time origin (|t0| up to 1e6, both signs), "
          "horizons of t0 + tiny, times one ulp apart, an observation at t0, one point; models with time-dependent rates, first-order (affine) right-hand sides, one state, zero parameters / initial "
          "states; inputs the code rejects (wrong lengths, unknown state) must stay rejected and leave the object usable.",
     note="Trusted: Lean kernel + Mathlib; harness generator and reference (scipy solve_ivp DOP853, scipy.stats); the Lean driver's `assemble` (C01) as the reference right-hand side for random "
